@@ -423,6 +423,8 @@ def configs(rep):
                         for edge in ("pos", "neg"):
                             if q and edge == "neg" and (dom == "none" or stages == 4):
                                 continue
+                            if q and width * stages >= 8 and (init == 1 or dom == "none"):
+                                continue
                             # thorough: the largest lines (width*stages = 12) on posedge domains, extreme init values only
                             if width * stages >= 12 and (edge == "neg" or init == 1 or signed or (width == 3 and init == 0)):
                                 continue
@@ -452,9 +454,12 @@ def configs(rep):
 
 
 # What the vendor overrides are held to. Xilinx lowers to plain flops (get_ff_sync) and FDPE chains (get_async_ff_sync):
-# the full contract. Altera hands FFSynchronizer to altera_std_synchronizer_bundle, a megafunction without init value,
-# synchronous-reset input or clock-edge choice: it is only explored where the generic lowering has the same parameters
-# (init=0, reset_less=True, posedge output domain); the other cases are reported to the maintainers, not encoded.
+# the full contract. Altera hands FFSynchronizer to altera_std_synchronizer_bundle, a megafunction that powers up at
+# zero (the lowering XORs the data with `init` around it), has no synchronous-reset input and no clock-edge choice: all
+# init values are explored, but only reset_less=True and posedge output domains. Limits, known and not encoded (they
+# contradict the documentation of FFSynchronizer, not the property statement): AlteraPlatform.get_ff_sync ignores
+# reset_less=False (an o_domain reset does not re-initialise the chain) and accepts a negedge o_domain although the
+# megafunction always clocks on the rising edge.
 def platform_configs(rep):
     out = []
     q = rep.quick
@@ -462,8 +467,8 @@ def platform_configs(rep):
         xil = plat.startswith("xilinx")
         full = plat in ("xilinx-vivado", "altera-quartus") or not q
         for stages in (2, 3):
-            for width in ((1, 2) if full else (1,)):
-                for init in sorted({0, 1, (1 << width) - 1}) if xil else (0,):
+            for width in ((1, 2) if full or not xil else (1,)):
+                for init in sorted({0, 1, (1 << width) - 1}):
                     for reset_less in ((True, False) if xil else (True,)):
                         for dom in (("sync", "async", "none") if full else ("sync",)):
                             for edge in (("pos", "neg") if xil and full and stages == 2 else ("pos",)):
@@ -607,7 +612,8 @@ def run(rep):
         rep.require(set(plats.get(p, ())) >= {"FFSynchronizer", "AsyncFFSynchronizer", "ResetSynchronizer", "PulseSynchronizer"} or failed_kinds,
                     f"platform {p}: not every primitive was explored")
     rep.assume("vendor cells (FDPE, altera_std_synchronizer[_bundle]) are replaced during elaboration by behavioural models written from the "
-               "vendor documentation (vf/gen/c17_platforms.py); AlteraPlatform.get_ff_sync is explored only for init=0, reset_less=True, posedge domains")
+               "vendor documentation (vf/gen/c17_platforms.py); AlteraPlatform.get_ff_sync is explored for every init value but only for reset_less=True "
+               "and posedge output domains: it ignores reset_less=False and accepts negedge domains (contradicts the docs, not the statement; not checked)")
     rep.assume("state injection through ctx.set is validated by replaying shortest paths from reset on fresh simulators")
     rep.assume("input changes and clock edges are interleaved, never simultaneous; the two PulseSynchronizer clocks may toggle simultaneously")
     rep.assume("PulseSynchronizer: an input pulse is an active input-domain edge with i=1; an active output edge coinciding with the later of two "
